@@ -100,6 +100,31 @@ def crash_safe(ctx) -> None:
     okr = opened == {"autosave_file"}
     ctx.ob("SAVE-resume", "resume opens the advertised file", r.loc(), okr,
            "resume() reads exactly the file it is given" if okr else f"resume() opens {sorted(opened)}")
+    # ... and does not touch the file system before the snapshot is loaded: the advertised file is the only complete
+    # snapshot there is (a `.new` sibling left by a crash is partial by construction)
+    FS_MUT = ("os.replace", "os.rename", "os.remove", "os.unlink", "shutil.move", "shutil.copy", "shutil.copyfile",
+              "shutil.copy2", "shutil.rmtree")
+    PATH_MUT = (".replace", ".rename", ".unlink", ".write_bytes", ".write_text", ".touch")
+    early = []
+    nload = 0
+    for p in it.run(r):
+        loads = [i for i, e in enumerate(p.events) if e.kind == "call" and e.name in ("pickle.load", "pickle.loads")]
+        upto = loads[0] if loads else len(p.events)
+        nload += bool(loads)
+        for e in p.events[:upto]:
+            if e.kind != "call":
+                continue
+            if e.name in FS_MUT or (e.name in PATH_MUT and e.recv is not None and "autosave_file" in show(e.recv)):
+                early.append(f"{e.name}({', '.join(show(x)[:30] for x in e.pos)}) at line {e.lineno}")
+            if e.name == "open":
+                mode = strip_typed(e.pos[1]) if len(e.pos) > 1 else strip_typed(dict(e.kw).get("mode", ("const", "r")))
+                if mode[0] != "const" or any(ch in str(mode[1]) for ch in "wax+"):
+                    early.append(f"open(…, {show(mode)}) at line {e.lineno}")
+    ctx.require(nload >= 1, "SAVE-resume: pickle.load not found in resume()")
+    ctx.ob("SAVE-resume", "resume does not modify files before loading", r.loc(), not early,
+           "nothing is renamed, removed or written before the snapshot is unpickled" if not early else
+           f"resume() performs {early[0]} before loading: a partial `.new` file left by a crash (or any other file) can "
+           f"replace the last complete snapshot, after which resuming fails on a truncated pickle")
 
 
 def _is_fs(e: Event, advertised) -> bool:
